@@ -460,8 +460,10 @@ def routine_value(prog, root, param_syms=None, extra=None, kernel_cls=None):
 def entropy_kernels(prog):
     """→ {name: (ite term over element symbols, root, ln dominance ok)}"""
     out = {}
-    # entropy: -sum(mapv(self, closure))
-    root = prog.method("EntropyExt", "entropy")
+    from .facts import inline_calls
+    from .rules_zones import helper_filter
+    # entropy: -sum(mapv(self, closure))          (private helpers of the module are read in place)
+    root = inline_calls(prog, prog.method("EntropyExt", "entropy"), helper_filter(prog))
     tb = prog.tracked(root)
     val = None
     for bb, t in tb.calls():
@@ -477,7 +479,7 @@ def entropy_kernels(prog):
                     svs = [ds(v) for _, v in success_values(tb)]
                     out["entropy"] = dict(term=ret, root=root, closure=cb, negated=bool(svs) and all(v == me for v in svs), producers_ok=True)
     for name in ("kl_divergence", "cross_entropy"):
-        root = prog.method("EntropyExt", name)
+        root = inline_calls(prog, prog.method("EntropyExt", name), helper_filter(prog))
         zf = zip_foreach(prog, root)
         if zf is None:
             continue
@@ -851,6 +853,52 @@ def west_recurrence(prog):
     """loop of inner_weighted_var → dict(state symbols, init terms, step terms, result term)"""
     b = prog.find("summary_statistics::means::inner_weighted_var")
     tb = prog.tracked(b)
+    folds = [(bb, t) for bb, t in tb.calls() if callee_name(t) == "fold" and (t["callee"].get("trait") or "").endswith("Iterator")]
+    if len(folds) == 1 and not any(tb.dominates(x, x2) and x2 in tb.reachable_from(x) and x in tb.reachable_from(x2) for x in tb.live_blocks() for x2 in tb.succ(x)):
+        # fold form: the running state is the accumulator tuple, replaced as a whole by the closure
+        bb, t = folds[0]
+        args = tb.call_arg_exprs(bb)
+        struct, prods = T.zip_structure(prog, tb, args[0])
+        if struct != ("e0", "e1"):
+            raise Unrecognised("iterator is not zip(a, b)")
+        init = ds(args[1])
+        cb, ups = closure_of(prog, args[2])
+        if cb is None or not (isinstance(init, tuple) and init[0] == "agg" and init[1] == "tuple"):
+            raise Unrecognised("fold without a tuple state / closure")
+        n = len(init[3])
+        syms = {(3, "0"): ("sym", "x"), (3, "1"): ("sym", "w")}
+        for i in range(n):
+            syms[(2, str(i))] = ("sym", "S_f%d" % i)
+        params = {l: ("sym", tb.local_name(l)) for l in range(1, tb.arg_count + 1)}
+        Kc, tbc, paths, results, upd_sites = T.closure_function(
+            prog, cb, syms, upvar_leaf=lambda u: (params.get(ds(ups[u[1]])[1]) if (isinstance(ds(ups[u[1]]), tuple) and ds(ups[u[1]])[0] == "param") else None))
+        if upd_sites:
+            raise Unrecognised("fold closure also updates captured state")
+        if len(results) != 1 or results[0][0] or not (isinstance(results[0][1], tuple) and results[0][1][0] == "tuple" and len(results[0][1]) == n + 1):
+            raise Unrecognised("fold closure does not return the state tuple on a single path")
+        steps = results[0][1][1:]
+
+        def pleaf(e):
+            if isinstance(e, tuple) and e[0] == "param" and e[1] in params:
+                return params[e[1]]
+            return None
+        Kp = Kernel(prog, tb, pleaf)
+        state = {"f%d" % i: dict(init=Kp.term(init[3][i]), step=steps[i]) for i in range(n)}
+        me = ds(tb.call_expr(bb))
+
+        def rleaf(e):
+            if isinstance(e, tuple) and e[0] == "field" and ds(e[1]) == me and str(e[2]).isdigit():
+                return ("sym", "S_f%s" % e[2])
+            return pleaf(e)
+        Kr = Kernel(prog, tb, rleaf)
+        r = ds(tb.return_expr())
+        if isinstance(r, tuple) and r[0] == "agg" and r[2] == "Ok":
+            res = Kr.term(r[3][0])
+        elif not (tb.raw.get("output") or "").startswith("std::result::Result"):
+            res = Kr.term(r)
+        else:
+            raise Unrecognised("result is not Ok(..)")
+        return dict(state=state, result=res, producers=prods, body=tb)
     lp = T.Loop(tb)
     it = lp.iterator()
     if it is None:
@@ -1065,6 +1113,21 @@ def rule_c07(ctx, prog, rule="R19"):
         if lv is not None:
             lits.append([ds(x) for x in lv])
     ok = sum(1 for l in lits if len(l) == 2 and l[0][1] == "one" and l[1][1] == "zero") >= 2
+    bulk = _bulk_build(prog, tb)
+    if bulk is not None:
+        # the general case, whatever its spelling (vec![one, zero] or with_capacity + two pushes): what precedes the mapped entries
+        head = []
+        for s_ in bulk[1]:
+            if s_[0] == "elems":
+                head.extend(s_[1])
+            elif s_[0] == "push":
+                head.append(s_[1])
+            elif s_[0] == "map":
+                break
+        okg = len(head) == 2 and all(isinstance(h_, tuple) and h_[0] == "call" and not h_[3] for h_ in head) and head[0][1] == "one" and head[1][1] == "zero"
+        ok = okg and sum(1 for l in lits if len(l) == 2 and l[0][1] == "one" and l[1][1] == "zero") >= 1
+        if not okg:
+            lits = lits + [head]
     ctx.ob("R13", "central_moments/prefix-constants", ok, root.where(), "every arm with ≥ 2 entries starts [one(), zero()]" if ok else
            "vector literals: %s" % [[fmt(x) for x in l] for l in lits], what="bulk moments do not start with the exact constants")
     # skewness / kurtosis formulas over central_moments(k)
@@ -1107,6 +1170,9 @@ def rule_c07(ctx, prog, rule="R19"):
                 cb, ups = closure_of(prog, a[2])
                 if cb is None:
                     continue
+                from .facts import inline_calls as _inl2
+                # the lane body may go through a private per-lane helper: read in place (the kernel itself stays a call)
+                cb = _inl2(prog, cb, lambda h: h.key not in prog.exported and len(h.blocks) <= 60 and not h.raw.get("unsafe_fn") and h.name != "inner_weighted_var")
                 cr = unwrap_try(cb.return_expr())
                 if isinstance(cr, tuple) and cr[0] == "call" and cr[1] == "inner_weighted_var":
                     lane = ds(cr[3][0])[:2] == ("param", 2)
@@ -1161,6 +1227,12 @@ def rule_c07(ctx, prog, rule="R19"):
                         cb, ups = closure_of(prog, v[3][1])
                         ret, _ = closure_terms(prog, cb, {2: ("sym", "x")})
                         ok = ret == ("fn", "sqrt", ("sym", "x"))
+        if not ok and name == "weighted_std":
+            # any spelling of "the success value of weighted_var, square-rooted": `?` + Ok(..sqrt()), `.map(|v| v.sqrt())`, `.map(A::sqrt)`
+            try:
+                ok = routine_value(prog, root) == ("fn", "sqrt", ("sym", base))
+            except Unrecognised:
+                ok = False
         ctx.ob("R13", "%s/sqrt-of-var" % name, ok, root.where(), "= sqrt ∘ %s" % base if ok else "%s is not the square root of %s" % (name, base),
                what="standard deviation is not sqrt(variance)")
     rec.flush()
@@ -1644,36 +1716,45 @@ def rule_moment_results(ctx, prog, cm=None, cms=None, bb1=None, rule="R13"):
             if [v for v in others if v != want] else "success values besides the polynomial are %s, expected exactly one() for order 0 and zero() for order 1"
             % [fmt(v) for v in consts]),
            what="central moment post-processed after the polynomial evaluation")
-    # the bulk routine's vector is only ever mutated by the pushes of the k-loop (no reverse/sort/truncate/in-place edit afterwards)
+    # the bulk routine's vector is built by its start, plain pushes and the one mapped segment over k only (no reverse / sort /
+    # truncate / in-place edit afterwards), and it is that vector which is returned in the general case
+    from .rules_result import returned_locals
     tb2 = prog.tracked(cms)
-    muts = []
-    vec_locals = set()
-    for d, v in success_values(tb2):
-        if isinstance(d[1], int):
-            st_ = tb2.blocks[d[0]]["stmts"][d[1]]
-            if st_["rv"]["k"] == "agg" and st_["rv"].get("variant") == "Ok":
-                op = st_["rv"]["fields"][0]
-                if op["k"] in ("move", "copy") and not op["pl"]["p"]:
-                    vec_locals.add(op["pl"]["l"])
-    for V in list(vec_locals):
-        # follow plain moves back to the named vector
-        for dd in tb2.defs_of(V):
-            if dd[0] != "entry" and isinstance(dd[1], int):
-                st_ = tb2.blocks[dd[0]]["stmts"][dd[1]]
-                if st_["rv"]["k"] == "use" and st_["rv"]["a"]["k"] in ("move", "copy") and not st_["rv"]["a"]["pl"]["p"]:
-                    vec_locals.add(st_["rv"]["a"]["pl"]["l"])
-    for V in vec_locals:
-        for dd in tb2.defs_of(V):
-            if dd[0] != "entry" and isinstance(dd[1], tuple) and dd[1][0] == "mut":
-                muts.append((dd[0], callee_name(tb2.term(dd[0]))))
-    bad = [m for m in muts if m[1] != "push"]
-    n_succ = len(list(success_values(tb2)))
-    if n_succ != 3 and not bad:
-        bad = [(0, "%d success values (expected the order-0 vector, the order-1 vector and the pushed vector)" % n_succ)]
-    ctx.ob(rule, "central_moments/vector-only-pushed", not bad and bool(muts), cms.where(),
-           "the returned vector is mutated by the k-loop's push only (%d site(s))" % len(muts) if (not bad and muts) else
-           ("the returned vector is also mutated by `%s` at %s" % (bad[0][1], tb2.where(bad[0][0], "term")) if bad else "no push into the returned vector found"),
+    bulk = _bulk_build(prog, tb2)
+    bad = None
+    if bulk is None:
+        bad = "the general case does not fill one vector by a single loop / extend(map) over k"
+    else:
+        vec, segs, seg = bulk
+        other = [s_ for s_ in segs if s_[0] == "other"]
+        if other:
+            bad = "the returned vector is also mutated by `%s` at %s" % (other[0][1], tb2.where(other[0][2], "term"))
+        elif segs[-1][0] != "map":
+            bad = "elements are appended after the mapped entries"
+        else:
+            rl = {L for _d, L in returned_locals(tb2)}
+            if vec not in rl:
+                bad = "the vector filled over k is not what the general case returns"
+        n_succ = len(list(success_values(tb2)))
+        if bad is None and n_succ != 3:
+            bad = "%d success values (expected the order-0 vector, the order-1 vector and the filled vector)" % n_succ
+    ctx.ob(rule, "central_moments/vector-only-pushed", bad is None, cms.where(),
+           "the returned vector is its literal start plus the entries mapped over k, untouched afterwards" if bad is None else bad,
            what="bulk moments edited after they were computed")
+
+
+def _bulk_build(prog, tb):
+    """(vec local, segments, the one map segment) of the named vector a moments routine fills, via vecbuild"""
+    from . import vecbuild as VB
+    best = None
+    for v in VB.vec_locals(tb):
+        segs = VB.build_of(prog, tb, v)
+        if not segs:
+            continue
+        maps = [s_ for s_ in segs if s_[0] == "map"]
+        if len(maps) == 1:
+            best = (v, segs, maps[0][1])
+    return best
 
 
 def rule_c18_moments(ctx, prog, rule="R13"):
@@ -1692,18 +1773,26 @@ def rule_c18_moments(ctx, prog, rule="R13"):
                 a = b.call_arg_exprs(bb)
                 out.append((bb, a))
         return out
-    h1, h2 = horner_sites(cm), horner_sites(cms)
-    ok = len(h1) == 1 and len(h2) == 1
+    from . import vecbuild as VB
+    h1 = horner_sites(cm)
+    bulk = _bulk_build(prog, prog.tracked(cms))
+    seg = bulk[2] if bulk else None
+    hv = ds(seg["value"]) if seg else None
+    ok = len(h1) == 1 and seg is not None and isinstance(hv, tuple) and hv[0] == "call" and hv[1] == "horner_method" and len(hv[3]) == 2
     if not ok:
-        ctx.ob(rule, "central_moment(s)/pipeline", False, cm.where(), "anchor not recognised: %d / %d horner_method sites" % (len(h1), len(h2)),
+        ctx.ob(rule, "central_moment(s)/pipeline", False, cm.where(),
+               "anchor not recognised: %d horner_method site(s) in central_moment; bulk entries k >= 2 are %s" % (
+                   len(h1), ("`%s`" % fmt(hv)[:80]) if hv is not None else "not produced by one loop / extend(map) over k"),
                what="anchor not recognised")
         return
-    (bb1, a1), (bb2, a2) = h1[0], h2[0]
+    (bb1, a1) = h1[0]
+    a2 = hv[3]
+    cms_v = seg["vbody"]            # the routine itself (loop form) or the mapping closure (extend form)
     rule_moment_results(ctx, prog, cm, cms, bb1, rule)
     c1 = canon_expr(prog, cm, a1[0])
-    c2 = canon_expr(prog, cms, a2[0])
+    c2 = canon_expr(prog, cms_v, a2[0])
     corr1 = canon_expr(prog, cm, a1[1])
-    corr2 = canon_expr(prog, cms, a2[1])
+    corr2 = canon_expr(prog, cms_v, a2[1])
     # coefficients = central_moment_coefficients(M or M[..=k])
     def coeff_input(c):
         # the coefficient vector may be lent (`&coefficients`, deref-coerced to a slice) instead of moved
@@ -1734,84 +1823,92 @@ def rule_c18_moments(ctx, prog, rule="R13"):
     # bulk uses the prefix ..=k of the same vector, k the loop variable of 2..=order
     pk = False
     if prefix is not None:
-        p = prefix
-        while isinstance(p, tuple) and p[0] == "cast":
-            p = p[2]
-        pk = isinstance(p, tuple) and p[0] == "field" and p[2] == "0"   # (next(iter) as Some).0
+        pk = VB.is_item(seg, prefix)          # the loop variable / the mapped range item, through integer casts
     ctx.ob(rule, "central_moments/prefix-per-k", pk, cms.where(), "coefficients for entry k are built from shifted_moments[..=k]" if pk else
            "bulk coefficients are not built from the prefix ..=k of the shifted moments", what="bulk moment k uses the wrong moments")
-    tb = prog.tracked(cms)
-    try:
-        lp = T.Loop(tb)
-        it = lp.iterator()
-        rng = ds(it[2])
-        while rng[0] == "call" and rng[1] == "into_iter":
-            rng = ds(rng[3][0])
-        okr = rng[0] == "call" and rng[1] == "new" and "RangeInclusive" in rng[2] and ds(rng[3][0]) == ("const", "u16", 2) and ds(rng[3][1])[:2] == ("param", 2)
-        pushes = [pb for pb, t in tb.calls() if callee_name(t) == "push" and pb in lp.blocks]
-        okp = len(pushes) == 1 and ds(tb.call_arg_exprs(pushes[0])[1])[1] == "horner_method"
-    except Unrecognised:
-        okr = okp = False
+    rg = VB.range_of(seg["source"])
+    okr = rg is not None and rg[2] is True and rg[0] == ("const", "u16", 2) and isinstance(rg[1], tuple) and rg[1][:2] == ("param", 2)
+    okp = True        # the entries are the polynomial values (checked above: the segment's value is horner_method(..))
     ctx.ob(rule, "central_moments/k-range", okr and okp, cms.where(), "entries 2..=order are pushed in increasing k after [one, zero]" if okr and okp else
            "bulk loop is not `for k in 2..=order { push(horner(..)) }`", what="bulk moments not in order k")
     rule_moments_vector(ctx, prog, rule)
 
 
+def _raw_moment_shape(prog, seg):
+    """the value of the mapped segment of `moments` is  sum(map(a, |x| x.powi(k))) / from_usize(len(a))  with a the routine's
+    first parameter, k the segment's item – read in the routine itself (loop form) or in the mapping closure (extend form, where
+    a and n are captures).  → dict(div, n_ok, src_ok, powi_ok, k_ok, refs_order)"""
+    from . import vecbuild as VB
+    vb = seg["vbody"]
+
+    def res2(e):
+        """resolve captures of the segment's closure in the routine → (body the expression lives in, expression)"""
+        e = ds(e)
+        cur = vb
+        for _ in range(4):
+            if isinstance(e, tuple) and e[0] == "upvar" and cur.is_closure:
+                cur, pe_ = up(prog, cur, e)
+                e = ds(pe_)
+            else:
+                break
+        return cur, e
+
+    def res(e):
+        return res2(e)[1]
+
+    def is_order(e):
+        b_, x_ = res2(e)
+        return (not b_.is_closure) and isinstance(x_, tuple) and x_[:2] == ("param", 2)
+    out = dict(div=False, n_ok=False, src_ok=False, powi_ok=False, k_ok=False, refs_order=False)
+    v = ds(seg["value"])
+    if not (isinstance(v, tuple) and v[0] == "call" and v[1] == "div" and len(v[3]) == 2):
+        return out
+    out["div"] = True
+    n_ = unwrap_try(res(v[3][1]))
+    out["n_ok"] = isinstance(n_, tuple) and n_[0] == "call" and n_[1] == "from_usize" and ds(n_[3][0])[0] == "call" and \
+        ds(n_[3][0])[1] == "len" and res(ds(n_[3][0])[3][0])[:2] == ("param", 1)
+    sm = ds(v[3][0])
+    if isinstance(sm, tuple) and sm[0] == "call" and sm[1] == "sum" and ds(sm[3][0])[0] == "call" and ds(sm[3][0])[1] in ("map", "mapv"):
+        mp = ds(sm[3][0])
+        out["src_ok"] = res(mp[3][0])[:2] == ("param", 1)
+        cbk, upsk = closure_of(prog, mp[3][1])
+        if cbk is not None:
+            cr = ds(cbk.return_expr())
+            if isinstance(cr, tuple) and cr[0] == "call" and cr[1] == "powi" and ds(cr[3][0])[:2] == ("param", 2):
+                out["powi_ok"] = True
+                ex_ = ds(cr[3][1])
+                if isinstance(ex_, tuple) and ex_[0] == "upvar":
+                    out["k_ok"] = VB.is_item(seg, upsk[ex_[1]])
+            # nothing the inner closure captures is the requested order
+            out["refs_order"] = any(is_order(u) for u in upsk)
+    for x in walk(v):
+        if isinstance(x, tuple) and x[0] in ("param", "upvar") and is_order(x):
+            out["refs_order"] = True
+    return out
+
+
 def rule_moments_vector(ctx, prog, rule="R13"):
     """shape of the raw-moment vector built by the private `moments`: entry k is the k-th raw moment for every k <= order"""
-    # prefix independence of `moments`: the k-th pushed raw moment does not depend on `order`
+    # prefix independence of `moments`: the k-th raw moment does not depend on `order`, and it is exactly Σ x^k / n
     mo = prog.find("summary_statistics::means::moments")
     tm = prog.tracked(mo)
     okm = False
-    detail = "anchor not recognised"
-    try:
-        lpm = T.Loop(tm)
-        itm = lpm.iterator()
-        item = ds(itm[1])
-        pushes = [pb for pb, t in tm.calls() if callee_name(t) == "push" and pb in lpm.blocks]
-        if len(pushes) == 1:
-            pushed = ds(tm.call_arg_exprs(pushes[0])[1])
-            refs_order = any(x[:2] == ("param", 2) for x in walk(pushed) if isinstance(x, tuple))
-            uses_k = False
-            for x in walk(pushed):
-                if x[0] == "agg" and x[1] == "closure":
-                    uses_k = any(ds(f) == item or any(ds(y) == item for y in walk(f)) for f in x[3])
-            okm = not refs_order and uses_k
-            detail = "the k-th raw moment is Σ x^k / n with k the loop variable only (independent of the requested order)" if okm else \
-                "pushed raw moment `%s` depends on `order` or not on k" % fmt(pushed)[:120]
-            # … and it is exactly Σ x^k / n: sum(map(a, |x| x.powi(k))) / from_usize(len(a)) with the exponent the loop variable itself
-            def n_elems(e):
-                e = unwrap_try(e)
-                return isinstance(e, tuple) and e[0] == "call" and e[1] == "from_usize" and ds(e[3][0])[0] == "call" and \
-                    ds(e[3][0])[1] == "len" and ds(ds(e[3][0])[3][0])[:2] == ("param", 1)
-            exact = False
-            if isinstance(pushed, tuple) and pushed[0] == "call" and pushed[1] == "div" and n_elems(pushed[3][1]):
-                sm = ds(pushed[3][0])
-                if isinstance(sm, tuple) and sm[0] == "call" and sm[1] == "sum" and ds(sm[3][0])[0] == "call" and ds(sm[3][0])[1] in ("map", "mapv"):
-                    mp = ds(sm[3][0])
-                    cbk, upsk = closure_of(prog, mp[3][1])
-                    if cbk is not None and ds(mp[3][0])[:2] == ("param", 1):
-                        cr = ds(cbk.return_expr())
-                        if isinstance(cr, tuple) and cr[0] == "call" and cr[1] == "powi" and ds(cr[3][0])[:2] == ("param", 2):
-                            ex_ = ds(cr[3][1])
-                            if isinstance(ex_, tuple) and ex_[0] == "upvar":
-                                exact = ds(upsk[ex_[1]]) == item
-            if okm and not exact:
-                okm = False
-                detail = "the raw moment pushed for k is `%s`, not sum(a.map(|x| x.powi(k))) / n with the exponent k itself" % fmt(pushed)[:120]
-    except Unrecognised as ex:
-        detail = "anchor not recognised: %s" % ex
+    detail = "anchor not recognised: the raw moments for k >= 2 are not produced by one loop / extend(map) over k"
+    bulk = _bulk_build(prog, tm)
+    if bulk is not None:
+        vec, segs, seg = bulk
+        sh = _raw_moment_shape(prog, seg)
+        okm = sh["div"] and sh["n_ok"] and sh["src_ok"] and sh["powi_ok"] and sh["k_ok"] and not sh["refs_order"]
+        detail = "the k-th raw moment is Σ x^k / n with k the loop variable only (independent of the requested order)" if okm else \
+            ("the raw moment produced for k is `%s`, not sum(a.map(|x| x.powi(k))) / n with the exponent k itself and nothing depending on "
+             "`order` (%s)" % (fmt(ds(seg["value"]))[:100], ", ".join("%s=%s" % kv for kv in sorted(sh.items()))))
     ctx.ob(rule, "moments/prefix-independent", okm, mo.where(), detail, what="raw moment k depends on the requested order")
     # entry 1 of the raw-moment vector (the mean of the shifted data, from which the correction term is read) is present for every
     # order >= 1: the push outside the k-loop is guarded by a condition that holds exactly for order >= 1
     from .rules_unsafe import bool_branch_dominating
     from .rules_result import eval_cond
     okf, fdetail = False, "anchor not recognised: no push of the first raw moment outside the k-loop"
-    try:
-        loop_blocks = T.Loop(tm).blocks
-    except Unrecognised:
-        loop_blocks = set()
-    outer = [pb for pb, t in tm.calls() if callee_name(t) == "push" and pb not in loop_blocks]
+    outer = [s_[2] for s_ in (bulk[1] if bulk else []) if s_[0] == "push"]
     if len(outer) == 1:
         doms = bool_branch_dominating(tm, outer[0], lambda de: True)
         badk = []
@@ -2296,19 +2393,21 @@ def rule_moment_pipeline(ctx, prog, rule="R19"):
     mo = prog.find("summary_statistics::means::moments")
     tm = prog.tracked(mo)
     try:
-        lits = []
-        for bb in tm.live_blocks():
-            lv = vec_literal_values(tm, bb)
-            if lv is not None:
-                lits.append([ds(x) for x in lv])
-        m0 = len(lits) == 1 and len(lits[0]) == 1 and lits[0][0][1] == "one"
-        lpm = T.Loop(tm)
-        itm = lpm.iterator()
-        item = ds(itm[1])
-        extra = array_sum_leaf(prog, {1: "y"})
-        pushes = [(pb, t) for pb, t in tm.calls() if callee_name(t) == "push"]
-        first = [pb for pb, t in pushes if pb not in lpm.blocks]
-        inloop = [pb for pb, t in pushes if pb in lpm.blocks]
+        from . import vecbuild as VB
+        bulk = _bulk_build(prog, tm)
+        if bulk is None:
+            raise Unrecognised("the raw moments for k >= 2 are not produced by one loop / extend(map) over k")
+        vec, segs, seg = bulk
+        head = []
+        for s_ in segs:
+            if s_[0] == "elems":
+                head.extend(s_[1])
+            elif s_[0] == "push":
+                head.append(s_[1])
+            elif s_[0] == "map":
+                break
+        m0 = len(head) >= 1 and isinstance(head[0], tuple) and head[0][0] == "call" and head[0][1] == "one" and not any(s_[0] == "other" for s_ in segs) \
+            and segs[-1][0] == "map"
         n_leaf = lambda e: ("sym", "N") if (isinstance(e, tuple) and e[0] == "call" and e[1] == "len" and ds(e[3][0])[:2] == ("param", 1)) else None
 
         def leaf(e):
@@ -2319,19 +2418,13 @@ def rule_moment_pipeline(ctx, prog, rule="R19"):
                 x = ds(e[3][0])
                 if x[:2] == ("param", 1):
                     return ("sym", "Σy")
-                if x[0] == "call" and x[1] in ("map", "mapv") and ds(x[3][0])[:2] == ("param", 1):
-                    cb2, ups2 = closure_of(prog, x[3][1])
-                    cr = ds(cb2.return_expr())
-                    if cr[0] == "call" and cr[1] == "powi" and cr[3][0][:2] == ("param", 2) and any(ds(u) == item for u in ups2):
-                        return ("sym", "Σy^k")
             return None
         Km = Kernel(prog, tm, leaf)
-        t1 = Km.term(tm.call_arg_exprs(first[0])[1]) if len(first) == 1 else None
-        tk = Km.term(tm.call_arg_exprs(inloop[0])[1]) if len(inloop) == 1 else None
-        rng = ds(itm[2])
-        while rng[0] == "call" and rng[1] == "into_iter":
-            rng = ds(rng[3][0])
-        rng_ok = rng[0] == "call" and rng[1] == "new" and "RangeInclusive" in rng[2] and ds(rng[3][0])[:1] == ("const",) and ds(rng[3][0])[2] == 2
+        t1 = Km.term(head[1]) if len(head) == 2 else None
+        sh = _raw_moment_shape(prog, seg)
+        tk = ("div", ("sym", "Σy^k"), ("sym", "N")) if (sh["div"] and sh["n_ok"] and sh["src_ok"] and sh["powi_ok"] and sh["k_ok"]) else None
+        rg = VB.range_of(seg["source"])
+        rng_ok = rg is not None and rg[2] is True and rg[0][:1] == ("const",) and rg[0][2] == 2
         okm = m0 and t1 == ("div", ("sym", "Σy"), ("sym", "N")) and tk == ("div", ("sym", "Σy^k"), ("sym", "N")) and rng_ok
         ctx.ob(rule, "moments/raw-moments", okm, mo.where(),
                "m_0 = one(), m_1 = Σy/n, m_k = Σy^k/n for k = 2..=order (pushed in order)" if okm else
